@@ -501,7 +501,7 @@ def ob_name(unit_name, ob):
 
 def match_known(known, prop, unit_name, ob):
     for k in known.get("findings", []):
-        if k.get("unit") != unit_name:
+        if k.get("unit") != unit_name and not unit_name.startswith(k.get("unit", "\0") + "."):
             continue
         if prop not in k.get("properties", [k.get("property")]):
             continue
